@@ -72,7 +72,7 @@ class Section:
             out.append("#>SELECT%sFILTER=%s" % (self.sep, hexs(self.filt)))
         out.append("#>SELECT_IF%sPROTOCOL=%s" % (self.sep, self.protocol if self.protocol is not None else "*"))
         if self.crc is not None:
-            out.append("##CRC: 0x%08X" % self.crc)
+            out.append("##CRC: " + getattr(self, "crc_format", "0x%08X") % self.crc)
         self.raw_lines = []
         cur_page = None
         out.append(marker_line(counter[0], 0xFE))
